@@ -542,6 +542,18 @@ impl<'tcx> Cx<'tcx> {
             o.set("impl_derived", J::Bool(tcx.is_automatically_derived(im)));
         }
         o.set("arg_count", n(body.arg_count));
+        if matches!(kind, DefKind::Fn | DefKind::AssocFn) {
+            // type parameters in substitution order (parents first): lets the rules instantiate an inlined callee
+            let gens = tcx.generics_of(did);
+            let mut gs = Vec::new();
+            for i in 0..gens.count() {
+                let p = gens.param_at(i, tcx);
+                if matches!(p.kind, ty::GenericParamDefKind::Type { .. }) {
+                    gs.push(s(p.name.to_string()));
+                }
+            }
+            o.set("generics", J::Arr(gs));
+        }
         self.dump_locals_and_blocks(&mut o, body, env);
         o
     }
